@@ -263,6 +263,26 @@ def r15_6(ctx, fx):
            site=fn.site(fn.entry), cfg=fx.cfg, detail="on the `candidate < furthest response` edge the next peer is scheduled and QuerySucceeded is unreachable")
 
 
+def r15_7(ctx, fx):
+    """quorum accounting of a value lookup: a record from the local store is counted once.  `GetRecordConfig::known_records` carries the
+    records known before the lookup and `sufficient_records` adds it to `found_records`, so `found_records` - the records the lookup
+    itself found - starts at 0.  (Starting at 1 for a local record counts it twice: `Quorum::N(2)` is 'met' without contacting anybody.)"""
+    fn = ctx.fn(fx, "protocol::libp2p::kademlia::query::get_record::GetRecordContext::new", "R15.7")
+    if fn is None:
+        return
+    aggs = [(n, s_) for n, s_ in fn.aggregates(r"get_record::GetRecordContext$") if "found_records" in s_["rv"].get("fields", [])]
+    ctx.anchor("R15.7", "GetRecordContext literal", len(aggs), 1, cfg=fx.cfg)
+    for n, s_ in aggs:
+        o = s_["rv"]["ops"][s_["rv"]["fields"].index("found_records")]
+        rs = guards.rootstrs(fn, o)
+        ctx.ob("R15.7", "GetRecordContext::new/found_records-starts-at-0", rs == {"const:0"}, site=fn.site(n), cfg=fx.cfg, detail="roots %s" % sorted(rs))
+    sf = ctx.fn(fx, "protocol::libp2p::kademlia::query::get_record::GetRecordConfig::sufficient_records", "R15.7")
+    if sf is not None:
+        adds = [s_ for n, s_ in sf.assigns() if s_["rv"]["r"] == "bin" and s_["rv"]["op"].startswith("Add")]
+        ok = any(guards.has_root(sf, s_["rv"]["a"], r"\.known_records") or guards.has_root(sf, s_["rv"]["b"], r"\.known_records") for s_ in adds)
+        ctx.ob("R15.7", "sufficient_records/adds-known_records-to-the-found-count", ok, site=sf.site(sf.entry), cfg=fx.cfg)
+
+
 def run(ctx):
     fx = ctx.facts("default")
     r15_4(ctx, fx)
@@ -272,3 +292,4 @@ def run(ctx):
     r15_5(ctx, fx)
     r15_5b(ctx, fx)
     r15_6(ctx, fx)
+    r15_7(ctx, fx)
